@@ -3051,6 +3051,11 @@ class Client:
         rc: MQTTErrorCode,
     ) -> MQTTErrorCode:
         if rc:
+            if self._sock is None:
+                # The connection has already been closed, and reported through
+                # on_disconnect, while this packet was handled (a write failed).
+                return rc
+
             self._sock_close()
 
             if self._state in (_ConnectionState.MQTT_CS_DISCONNECTING, _ConnectionState.MQTT_CS_DISCONNECTED):
